@@ -167,8 +167,12 @@ def c03_handlers(R):
             )
             if dn in own:
                 fn = own[dn]
-                ret = next((r.value for r in walk_no_nested(fn) if isinstance(r, ast.Return) and r.value is not None), None)
-                txt = ast.unparse(ret) if ret is not None else ""
+                rets = [
+                    r.value
+                    for r in walk_no_nested(fn)
+                    if isinstance(r, ast.Return) and r.value is not None and ast.unparse(r.value) != "NotImplemented"
+                ]
+                txt = ast.unparse(rets[-1]) if rets else ""
                 R.check(
                     ".value" in txt and ("==" in txt if dn == "__eq__" else "!=" in txt),
                     m,
